@@ -180,6 +180,19 @@ def run_cases(mod, pid, tier, seed, ncases, violations, stats, samples, notes):
                                    % (type(e).__name__, str(e)[:300]), "case": mod.describe(c), "failing_input": False,
                                    "correspondence": mod.CORRESPONDENCE})
             continue
+        # generic purity probe on a fraction of the cases: the same call once more, after everything the first
+        # call returned has been destructively edited in place; the second answer must be what the first one was
+        if getattr(mod, "REPEAT_PROBE", False) and len(kept) % 5 == 0 and (not hasattr(mod, "repeat_ok") or mod.repeat_ok(c)):
+            try:
+                msg, out = repeat_probe(mod, c, out)   # the (unedited) second answer is used from here on
+            except Exception as e:   # noqa
+                msg, out = "repeating the call raised %s: %s" % (type(e).__name__, str(e)[:200]), mod.run_impl(c)
+            if msg:
+                stats["hist"]["repeat_probe_failed"] = stats["hist"].get("repeat_probe_failed", 0) + 1
+                violations.append({"kind": "runtime", "what": msg, "case": mod.describe(c), "impl": mod.describe_out(out),
+                                   "failing_input": True})
+            else:
+                stats["hist"]["repeat_probe_ok"] = stats["hist"].get("repeat_probe_ok", 0) + 1
         try:
             cc = mod.coq_case(c, out)
         except Exception as e:
@@ -251,6 +264,61 @@ def run_cases(mod, pid, tier, seed, ncases, violations, stats, samples, notes):
             v["failing_input"] = getattr(mod, "AGREE_IS_PROPERTY", False)
         add_diag(mod, pid, coq_cases[i], v)
         violations.append(v)
+
+
+def _scramble(obj, depth=0):
+    """Destructively edit everything mutable reachable from a returned value."""
+    import networkx as nx
+    if depth > 6 or obj is None:
+        return
+    if isinstance(obj, nx.Graph):
+        for n in list(obj.nodes):
+            d = obj.nodes[n]
+            for k in list(d):
+                if isinstance(d[k], list):
+                    d[k].append("__scrambled__")
+                elif isinstance(d[k], str):
+                    d[k] = "Zz"
+            d["__scrambled__"] = True
+        for e in list(obj.edges(keys=True)) if obj.is_multigraph() else list(obj.edges):
+            dd = obj.edges[e]
+            for k in list(dd):
+                if isinstance(dd[k], list):
+                    dd[k].append(99)
+                else:
+                    dd[k] = 99
+        obj.graph["__scrambled__"] = True
+        try:
+            obj.add_node(("__scrambled__", id(obj)))
+            if obj.number_of_nodes() > 1:
+                obj.remove_node(next(iter(obj.nodes)))
+        except Exception:   # noqa
+            pass
+        return
+    if isinstance(obj, dict):
+        for v in list(obj.values()):
+            _scramble(v, depth + 1)
+        return
+    if isinstance(obj, (list, tuple, set)):
+        for v in list(obj):
+            _scramble(v, depth + 1)
+        if isinstance(obj, list):
+            obj.append("__scrambled__")
+        return
+    g = getattr(obj, "graph", None)
+    if g is not None and not isinstance(obj, (str, bytes, int, float)):
+        _scramble(g, depth + 1)
+
+
+def repeat_probe(mod, c, out):
+    before = json.dumps(mod.describe_out(out), sort_keys=True, default=repr)
+    _scramble(out)
+    out2 = mod.run_impl(c)
+    after = json.dumps(mod.describe_out(out2), sort_keys=True, default=repr)
+    if before != after:
+        return ("the same call repeated after its first result was edited in place gives a different answer "
+                "(the result shares state with an earlier result, or depends on an earlier call)"), out2
+    return None, out2
 
 
 _DIAGS = [0]
